@@ -7,7 +7,8 @@ import OxyModel.Proofs.CBreaker.Window
 
 Property theorems only (helpers: `OxyModel/Proofs/CBreaker/{Machine,Metrics,Eval}.lean`).  Models:
 `OxyModel/Model/CBExpr.lean` (`CBExpr.eval` = the combinators of `predicates.go`),
-`OxyModel/Model/CBreaker.lean` (`CB.complete` = `metrics.Record` + `checkAndSet`, `CB.Metrics` = `RTMetrics`
+`OxyModel/Model/CBreaker.lean` (`CB.record` = `metrics.Record`, `CB.checkAndSet` = `checkAndSet` — two steps,
+other requests may act in between; `CB.complete` = the two back to back, `CB.Metrics` = `RTMetrics`
 over the rolling counters of `Model/Counter.lean`).
 
 `Denote env e` is the independently written reading of an expression: comparisons of rational numbers
@@ -58,13 +59,48 @@ def anyCode : Nat → Bool := fun _ => true
 def inRange (lo hi : Nat) : Nat → Bool := fun k => decide (k < hi ∧ k ≥ lo)
 
 /-- **the metrics are the current window since the last trip** (composition with the C17 counter
-    invariant): after *every* trace with non-decreasing time stamps, the values the condition is evaluated
+    invariant): after *every* trace — arrivals, records and checks of overlapping requests in any
+    interleaving, `recsAfter` collecting every `record` and restarting from `[]` at every check that
+    tripped — with non-decreasing time stamps, the values a check at `now` evaluates the condition on are
+    quotients of plain counts over **everything recorded so far since the last trip** whose one-second
+    slot is among the last ten (`winCount now recs P` = number of `r ∈ recs` with `P r.code` and
+    `⌊now/1s⌋ < ⌊r.time/1s⌋ + 10`): network errors (502/504) over all responses; responses in `[a0,a1)`
+    over responses in `[b0,b1)`; `0` when the divisor counts nothing.
+    (`tmin` = 1970-01-01 + 10 s: earlier clock readings have no bucket.) -/
+theorem C18_window (c : Cfg) (es : List Ev) (now : Nat) (orc : Oracle)
+    (hsorted : (es.map Ev.time ++ [now]).Pairwise (· ≤ ·))
+    (hmin : ∀ e ∈ es, tmin ≤ e.time) (hnow : tmin ≤ now) :
+    (envOf (reader now orc) (run c Brk.init es).1.met).ner =
+      (if winCount now (recsAfter c Brk.init [] es) anyCode = 0 then 0
+       else (winCount now (recsAfter c Brk.init [] es) isNE : ℚ) / (winCount now (recsAfter c Brk.init [] es) anyCode : ℚ)) ∧
+    ∀ a0 a1 b0 b1,
+      (envOf (reader now orc) (run c Brk.init es).1.met).rcr a0 a1 b0 b1 =
+        (if winCount now (recsAfter c Brk.init [] es) (inRange b0 b1) = 0 then 0
+         else (winCount now (recsAfter c Brk.init [] es) (inRange a0 a1) : ℚ) /
+              (winCount now (recsAfter c Brk.init [] es) (inRange b0 b1) : ℚ)) := by
+  have hle : ∀ t ∈ es.map Ev.time, t ≤ now := fun t ht =>
+    (List.pairwise_append.mp hsorted).2.2 t ht now (by simp)
+  have hs0 : (0 :: es.map Ev.time).Pairwise (· ≤ ·) :=
+    List.pairwise_cons.mpr ⟨fun _ _ => Nat.zero_le _, (List.pairwise_append.mp hsorted).1⟩
+  obtain ⟨T', hT', hinv⟩ := run_minv c es Brk.init 0 [] (minv_init 0) hs0 hmin
+  have hTn : T' ≤ now := by
+    rcases List.mem_cons.mp hT' with rfl | h
+    · exact Nat.zero_le _
+    · exact hle T' h
+  obtain ⟨v1, v2, _⟩ := C18_env_values now orc (run c Brk.init es).1.met
+  refine ⟨?_, fun a0 a1 b0 b1 => ?_⟩
+  · rw [v1, minv_total_count hinv hTn hnow, minv_ne_count hinv hTn hnow]
+    rfl
+  · rw [v2, minv_codeSum hinv hTn hnow, minv_codeSum hinv hTn hnow]
+    rfl
+
+/-- the same for a completion whose `record` and `check` run back to back (`complete`): after *every* trace with non-decreasing time stamps, the values the condition is evaluated
     on at a completion are quotients of plain counts over the responses recorded since the last trip whose
     one-second slot is among the last ten (`winCount now recs P` = number of `r ∈ recs` with `P r.code`
     and `⌊now/1s⌋ < ⌊r.time/1s⌋ + 10`): network errors (502/504) over all responses; responses in
     `[a0,a1)` over responses in `[b0,b1)`; `0` when the divisor counts nothing.
     (`tmin` = 1970-01-01 + 10 s: earlier clock readings have no bucket.) -/
-theorem C18_window (c : Cfg) (es : List Ev) (now code : Nat) (orc : Oracle)
+theorem C18_window_fused (c : Cfg) (es : List Ev) (now code : Nat) (orc : Oracle)
     (hsorted : (es.map Ev.time ++ [now]).Pairwise (· ≤ ·))
     (hmin : ∀ e ∈ es, tmin ≤ e.time) (hnow : tmin ≤ now) :
     (envOf (reader now orc) ((run c Brk.init es).1.met.record now code)).ner =
@@ -107,13 +143,36 @@ theorem C18_eval_standard_general {σ : Type} (rd : Reader σ) (hst : Stable rd)
     (eval rd e s).2 = true ↔ Denote (envOf rd s) e :=
   (eval_denote hst hwf s e s hwt (Sim.refl _ _)).1
 
-/-- **trips iff**: a completed response at `now` with status `code` trips the breaker iff an evaluation is
+/-- **trips iff**: a check at `now` (the `checkAndSet` of a completing request, at whatever point of the
+    interleaving) trips the breaker iff an evaluation is due (`now > lastCheck`: the first check after the
+    check period), the breaker is not already tripped, and the condition is true — in its standard reading
+    — on the metrics as they are, i.e. (by `C18_window`) on everything recorded so far since the last trip
+    and inside the window.  The state is `tripped` afterwards iff it was before or the breaker tripped now;
+    an evaluation (whatever its outcome, also while tripped) schedules the next one `checkPeriod` later, and
+    a check that is not due changes nothing. -/
+theorem C18_trips_iff (c : Cfg) (b : Brk) (now : Nat) (orc : Oracle) (hwt : c.cond.wellTyped = true) :
+    ((checkAndSet c b now orc).2 = true ↔
+      (now > b.lastCheck ∧ b.state ≠ .tripped ∧ Denote (envOf (reader now orc) b.met) c.cond)) ∧
+    ((checkAndSet c b now orc).1.state = .tripped ↔
+      (b.state = .tripped ∨ (checkAndSet c b now orc).2 = true)) ∧
+    ((checkAndSet c b now orc).2 = true → (checkAndSet c b now orc).1.until_ = now + c.fallbackDur) ∧
+    (now > b.lastCheck → (checkAndSet c b now orc).1.lastCheck = now + c.checkPeriod) ∧
+    (¬ now > b.lastCheck → checkAndSet c b now orc = (b, false)) := by
+  have hev := C18_eval_standard now orc b.met c.cond hwt
+  refine ⟨?_, ?_, ?_, (check_lastCheck c b now orc).1, (check_lastCheck c b now orc).2⟩
+  · rw [check_true_iff, hev]
+  · cases hf : (checkAndSet c b now orc).2 with
+    | true => simp [(check_true_fields c b now orc hf).1]
+    | false => rw [(check_false c b now orc hf).1]; simp
+  · intro hf; exact (check_true_fields c b now orc hf).2.1
+
+/-- the same for `record` and `check` run back to back: a completed response at `now` with status `code` trips the breaker iff an evaluation is
     due (`now > lastCheck`: the first completion after the check period), the breaker is not already
     tripped, and the condition is true — in its standard reading — on the metrics that hold this response.
     The state is `tripped` afterwards iff it was before or the breaker tripped now; an evaluation
     (whatever its outcome, also while tripped) schedules the next one `checkPeriod` later, and a completion
     that is not due changes nothing but the recorded metrics. -/
-theorem C18_trips_iff (c : Cfg) (b : Brk) (now code : Nat) (orc : Oracle) (hwt : c.cond.wellTyped = true) :
+theorem C18_trips_iff_fused (c : Cfg) (b : Brk) (now code : Nat) (orc : Oracle) (hwt : c.cond.wellTyped = true) :
     ((complete c b now code orc).2 = true ↔
       (now > b.lastCheck ∧ b.state ≠ .tripped ∧
         Denote (envOf (reader now orc) (b.met.record now code)) c.cond)) ∧
@@ -130,17 +189,18 @@ theorem C18_trips_iff (c : Cfg) (b : Brk) (now code : Nat) (orc : Oracle) (hwt :
     | false => rw [(complete_false c b now code orc hf).1]; simp
   · intro hf; exact (complete_true_fields c b now code orc hf).2.1
 
-/-- **tripping clears the metrics**: right after a trip the metrics are reset, so that at every later
-    instant, until new responses are recorded, the network-error ratio and every response-code ratio read
-    0 — failures recorded before the trip cannot trip the breaker again -/
-theorem C18_trip_clears_metrics (c : Cfg) (b : Brk) (now code : Nat) (orc : Oracle)
-    (h : (complete c b now code orc).2 = true) :
-    (complete c b now code orc).1.met.codes = [] ∧
-    ∀ now' orc', (envOf (reader now' orc') (complete c b now code orc).1.met).ner = 0 ∧
-      ∀ a0 a1 b0 b1, (envOf (reader now' orc') (complete c b now code orc).1.met).rcr a0 a1 b0 b1 = 0 := by
-  have hm := (complete_true_fields c b now code orc h).2.2.2.2.2
+/-- **tripping clears the metrics**: right after any event that trips the breaker (a `check`, alone or
+    fused with its `record`) the metrics are reset, so that at every later instant, until new responses are
+    recorded, the network-error ratio and every response-code ratio read 0 — failures recorded before the
+    trip cannot trip the breaker again.  (Ratio functions only: the latency histogram is not modelled;
+    that `LatencyAtQuantileMS` forgets the latencies recorded before the trip is checked by the monitor's
+    independent bound on the oracle value, not proved here.) -/
+theorem C18_trip_clears_metrics (c : Cfg) (b : Brk) (e : Ev) (h : (step c b e).2 = .done true) :
+    (step c b e).1.met.codes = [] ∧
+    ∀ now' orc', (envOf (reader now' orc') (step c b e).1.met).ner = 0 ∧
+      ∀ a0 a1 b0 b1, (envOf (reader now' orc') (step c b e).1.met).rcr a0 a1 b0 b1 = 0 := by
+  obtain ⟨m', hm⟩ := (step_done_true c b e h).2.2.2.2.2.2.2
   rw [hm]
-  generalize (eval (reader now orc) c.cond (b.met.record now code)).1 = m'
   refine ⟨rfl, fun now' orc' => ⟨?_, fun a0 a1 b0 b1 => ?_⟩⟩
   · show (Metrics.ner now' m'.reset).2.toQ = 0
     rw [ner_reset]; simp [Val.toQ]
@@ -148,7 +208,7 @@ theorem C18_trip_clears_metrics (c : Cfg) (b : Brk) (now code : Nat) (orc : Orac
     rw [rcr_reset]; simp [Val.toQ]
 
 /-- **effects once per transition**: over any trace (any number of trip/recover cycles, overlapping
-    requests) from any breaker, the on-tripped side effect has been launched once per entry into `tripped`
+    requests interleaved at the granularity of arrive / record / check) from any breaker, the on-tripped side effect has been launched once per entry into `tripped`
     and the on-standby effect once per entry into `standby`; entries into `tripped` are exactly the
     completions that tripped.  The model counts *launches* of `SideEffect.Exec`: what `Exec` returns (an
     effect may act and then report an error, which the code only logs) does not enter the model, so the
@@ -187,6 +247,14 @@ example : (run exCfg Brk.init exTrace).1.tripped = 2 ∧ (run exCfg Brk.init exT
 example : recorded exCfg (exTrace.take 8) (T0 + 2300) 502 = [(T0 + 2300, 502)] := by decide
 example : winCount (T0 + 200) (recorded exCfg (exTrace.take 5) (T0 + 200) 504) isNE = 2 ∧
     winCount (T0 + 200) (recorded exCfg (exTrace.take 5) (T0 + 200) 504) anyCode = 3 := by decide
+
+/-- the reviewer's schedule `record_A record_B check_B check_A` with `NetworkErrorRatio() >= 0.5`, A = 502,
+    B = 200: the one evaluation sees both responses (1/2) and trips; the other check is not due -/
+example : (run ⟨1000, 1000, 100, .cmp .ge .ner (.float 5 10)⟩ Brk.init
+    [.arrive T0, .arrive T0, .record (T0 + 5) 502, .record (T0 + 5) 200, .check (T0 + 5) [], .check (T0 + 5) []]).2 =
+    [.pass, .pass, .recorded, .recorded, .done true, .done false] := by decide
+example : recsAfter ⟨1000, 1000, 100, .cmp .ge .ner (.float 5 10)⟩ Brk.init []
+    [.arrive T0, .arrive T0, .record (T0 + 5) 502, .record (T0 + 5) 200] = [(T0 + 5, 200), (T0 + 5, 502)] := by decide
 
 /-- an exact tie: one network error in two responses, `0.5 ≥ 0.5` holds, `0.5 > 0.5` does not -/
 example : (eval (reader (T0 + 5) []) (.cmp .ge .ner (.float 5 10)) ((Metrics.init.record T0 200).record (T0 + 5) 502)).2 = true ∧
